@@ -8,6 +8,7 @@ import (
 	"go/token"
 	"go/types"
 	"math/big"
+	"os"
 	"strconv"
 	"strings"
 
@@ -350,6 +351,13 @@ func (e *SEnv) tr(x *SX) *SVal {
 			_ = facts
 		}
 		body := n.boolTerm(x.Args[0])
+		var qnames []string
+		for _, b := range x.Bind {
+			qnames = append(qnames, n.vars[b.Name].V.T)
+		}
+		if pats := inferPatterns(body, qnames); pats != "" && x.Tok == "forall" && os.Getenv("GOVC_PATTERNS") != "" {
+			return boolVal(fmt.Sprintf("(forall (%s) (! %s %s))", strings.Join(bs, " "), body, pats))
+		}
 		return boolVal(fmt.Sprintf("(%s (%s) %s)", x.Tok, strings.Join(bs, " "), body))
 	}
 	e.fail("unsupported expression %s", x)
@@ -1374,4 +1382,141 @@ func mentionsResult(x *SX) bool {
 		}
 	}
 	return false
+}
+
+// inferPatterns chooses E-matching triggers for a quantified body: application terms (array reads,
+// field accessors applied to reads, uninterpreted functions) that mention bound variables and contain
+// no arithmetic or logical structure. Quantifiers whose only candidate terms involve index arithmetic
+// get no pattern; the instantiation pre-pass serves those.
+func inferPatterns(body string, vars []string) string {
+	if len(vars) == 0 {
+		return ""
+	}
+	exprs := parseSexps(body)
+	if len(exprs) != 1 {
+		return ""
+	}
+	isVar := map[string]bool{}
+	for _, v := range vars {
+		isVar[v] = true
+	}
+	bad := map[string]bool{"+": true, "-": true, "*": true, "div": true, "mod": true, "ite": true, "and": true, "or": true, "not": true, "=>": true,
+		"=": true, "<": true, "<=": true, ">": true, ">=": true, "forall": true, "exists": true, "let": true, "!": true, "distinct": true}
+	type cand struct {
+		term *sx
+		vars map[string]bool
+		size int
+	}
+	var cands []cand
+	var walk func(t *sx) (map[string]bool, bool, int) // vars, clean, size
+	walk = func(t *sx) (map[string]bool, bool, int) {
+		if t.list == nil {
+			if isVar[t.atom] {
+				return map[string]bool{t.atom: true}, true, 1
+			}
+			return map[string]bool{}, true, 1
+		}
+		h := t.head()
+		vs := map[string]bool{}
+		clean := true
+		size := 1
+		if h == "forall" || h == "exists" {
+			// nested quantifier: its bound variables are not ours; do not pick patterns inside
+			for _, c := range t.list[2:] {
+				walk(c)
+			}
+			return vs, false, 1
+		}
+		for _, c := range t.list {
+			cv, cc, cs := walk(c)
+			for k := range cv {
+				vs[k] = true
+			}
+			clean = clean && cc
+			size += cs
+		}
+		if bad[h] || strings.HasPrefix(h, "bv") || h == "" || strings.HasPrefix(h, "(_") {
+			return vs, false, size
+		}
+		if t.list[0].list != nil {
+			return vs, false, size
+		}
+		if clean && len(vs) > 0 && h != "mk_slice" && !strings.HasPrefix(h, "mk$") && h != "mk_iface" {
+			// a bare accessor on a bound variable is too general a trigger
+			if !(len(t.list) == 2 && t.list[1].isAtom() && isVar[t.list[1].atom] && (strings.HasPrefix(h, "f$") || h == "s_len" || h == "s_off" || h == "s_arr" || h == "s_cap" || h == "i_tag" || h == "i_val" || h == "slen")) {
+				cands = append(cands, cand{t, vs, size})
+			}
+		}
+		return vs, clean, size
+	}
+	walk(exprs[0])
+	if len(cands) == 0 {
+		return ""
+	}
+	// prefer single terms covering all variables (smallest first), else a greedy multi-pattern
+	var full []cand
+	for _, c := range cands {
+		if len(c.vars) == len(vars) {
+			full = append(full, c)
+		}
+	}
+	seen := map[string]bool{}
+	var out []string
+	if len(full) > 0 {
+		// keep maximal-information but small: up to 3 distinct smallest terms
+		for i := 0; i < len(full); i++ {
+			for j := i + 1; j < len(full); j++ {
+				if full[j].size < full[i].size {
+					full[i], full[j] = full[j], full[i]
+				}
+			}
+		}
+		for _, c := range full {
+			k := c.term.String()
+			if seen[k] {
+				continue
+			}
+			// skip terms that strictly contain an already chosen pattern (less general)
+			sub := false
+			for o := range seen {
+				if strings.Contains(k, o) {
+					sub = true
+				}
+			}
+			if sub {
+				continue
+			}
+			seen[k] = true
+			out = append(out, ":pattern ("+k+")")
+			if len(out) >= 3 {
+				break
+			}
+		}
+		return strings.Join(out, " ")
+	}
+	covered := map[string]bool{}
+	var multi []string
+	for len(covered) < len(vars) {
+		best := -1
+		gain := 0
+		for i, c := range cands {
+			g := 0
+			for v := range c.vars {
+				if !covered[v] {
+					g++
+				}
+			}
+			if g > gain || (g == gain && g > 0 && best >= 0 && c.size < cands[best].size) {
+				best, gain = i, g
+			}
+		}
+		if best < 0 {
+			return ""
+		}
+		multi = append(multi, cands[best].term.String())
+		for v := range cands[best].vars {
+			covered[v] = true
+		}
+	}
+	return ":pattern (" + strings.Join(multi, " ") + ")"
 }
